@@ -12,4 +12,5 @@ INVARIANT ReadIsProp
 INVARIANT ListIsUnion
 INVARIANT ContainsIsList
 INVARIANT DeviationsExplainCode
+INVARIANT CodeSafeModuloD2
 CHECK_DEADLOCK FALSE
